@@ -598,7 +598,9 @@ def dict_resolver(env):
 
             try:
                 co = codefind.find_code(*hierarchy, module=module or "__main__")
-            except (KeyError, ImportError):
+            except (KeyError, ImportError, TypeError, ValueError, AttributeError):
+                # (a module part such as "." makes importlib raise TypeError, and a
+                # module without a file, e.g. an interactive __main__, AttributeError)
                 raise CodeNotFoundError(
                     f"Cannot find a function for the reference '{x}'."
                     " Try calling `ptera.refstring` on the function you want"
